@@ -8,10 +8,14 @@ Pays == { <<>>, <<65>>, <<0, 255>>, <<0, 65, 255>>, <<61, 38, 0, 1>>, <<255, 254
 C2Of(p) == [metadata |-> p, id |-> <<49, 50>>, output |-> Rev(p) \o <<7>>]
 Bases == { <<>>, <<47, 97>> }
 M1 == <<1, 2, 3, 4>>  M0 == <<0, 0, 0, 0>>
-Scn == (Single \cup Multi) \X Pays \X Bases \X { <<M1, M1>>, <<M0, M1>> }
-Msg0(b) == [EmptyMsg EXCEPT !.uri = b]
-Row(x) == [prog |-> x[1], c2 |-> C2Of(x[2]), base |-> x[3], masks |-> x[4],
-           msg |-> Encode(x[1], C2Of(x[2]), Msg0(x[3]), x[4]), expect |-> Project(C2Of(x[2]), x[1])]
+\* "any initial request": empty, or already carrying a body, a parameter and a header
+Old == <<79, 76, 68>>
+Scn == ((Single \cup Multi) \X Pays \X Bases \X { <<M1, M1>>, <<M0, M1>> } \X {FALSE})
+       \cup ((Single \cup Multi) \X { <<>>, <<0, 65, 255>> } \X { <<47, 97>> } \X { <<M1, M1>> } \X {TRUE})
+Msg0(b, full) == IF full THEN [uri |-> b, params |-> <<[k |-> <<107>>, v |-> Old]>>, headers |-> <<[k |-> <<85, 65>>, v |-> Old]>>, body |-> Old]
+                 ELSE [EmptyMsg EXCEPT !.uri = b]
+Row(x) == [prog |-> x[1], c2 |-> C2Of(x[2]), base |-> x[3], masks |-> x[4], msg0 |-> Msg0(x[3], x[5]),
+           msg |-> Encode(x[1], C2Of(x[2]), Msg0(x[3], x[5]), x[4]), expect |-> Project(C2Of(x[2]), x[1])]
 Table == LET q == SetToSeq(Scn) IN [i \in 1..Len(q) |-> Row(q[i])]
 ASSUME Mode = "table" => JsonSerialize(IOEnv.OUTF, Table)
 
